@@ -46,6 +46,7 @@ def run(cx):
         t = cx.true_returns(c)
         cx.guard('C19.P1', t, {'in-bailiwick': r'^recursor::is_subzone\(\^+arg3,arg2\.name\)$'}, fn=c)
         cx.check('C19.P1', len(t) >= 1, c.path, 'ret', 'true-return-present', str(len(t)))
+        cx.bool_cnf('C19.P1', c, [[r'recursor::is_subzone\(\^+arg3,arg2\.name\)']], 'keep=in-bailiwick')
     z = cx.fn('C19.P1', 'hickory_resolver::recursor::is_subzone')
     if z:
         t = cx.true_returns(z)
